@@ -35,3 +35,16 @@ func specObjectMismatch(o storage.Object, c storage.ChecksumValues) bool {
 		specOptDiffer(o.ChecksumCRC64NVME, c.ChecksumCRC64NVME) || specOptDiffer(o.ChecksumSHA1, c.ChecksumSHA1) ||
 		specOptDiffer(o.ChecksumSHA256, c.ChecksumSHA256)
 }
+
+func specSameOptStr(a, b *string) bool {
+	if a == nil || b == nil {
+		return a == nil && b == nil
+	}
+	return *a == *b
+}
+
+// specSameChecksumValues: the two sets of digests agree field by field.
+func specSameChecksumValues(a, b storage.ChecksumValues) bool {
+	return specSameOptStr(a.ETag, b.ETag) && specSameOptStr(a.ChecksumCRC32, b.ChecksumCRC32) && specSameOptStr(a.ChecksumCRC32C, b.ChecksumCRC32C) &&
+		specSameOptStr(a.ChecksumCRC64NVME, b.ChecksumCRC64NVME) && specSameOptStr(a.ChecksumSHA1, b.ChecksumSHA1) && specSameOptStr(a.ChecksumSHA256, b.ChecksumSHA256)
+}
